@@ -107,6 +107,38 @@ Proof.
   unfold pad_leaves in E. apply (app_inv_len _ _ _ _ Hl E).
 Qed.
 
+Lemma map_hash_binds : forall cs cs' : list bytes,
+  map H256 cs = map H256 cs' -> cs = cs' \/ collision.
+Proof.
+  induction cs as [|c cs IH]; intros [|c' cs'] He; try discriminate He.
+  - left; reflexivity.
+  - cbn [map] in He. injection He as Hc Hr.
+    destruct (bytes_eq_dec c c') as [->|N]; [|right; exists c, c'; split; assumption].
+    destruct (IH cs' Hr) as [->|C]; [left; reflexivity|right; exact C].
+Qed.
+
+(* the pieces root binds the CONTENT: two files of the same length with the same BEP 52 root are the same
+   bytes, or an explicit collision of H256 exists -- for every block size B > 0 *)
+Theorem bep52_root_binds (B : nat) : 0 < B -> forall data data' : bytes,
+  length data = length data' ->
+  bep52_root H256 B data = bep52_root H256 B data' -> data = data' \/ collision.
+Proof.
+  intros HB data data' Hl He. unfold bep52_root, log2_up_nat in He.
+  assert (Ll : length (leaves H256 B data) = length (leaves H256 B data')).
+  { unfold leaves. rewrite !map_length.
+    etransitivity; [apply length_chunks; exact HB|]. rewrite Hl. symmetry. apply length_chunks; exact HB. }
+  rewrite <- Ll in He.
+  assert (F : forall d, Forall (fun x => length x = 32) (leaves H256 B d)).
+  { intros d. unfold leaves. apply Forall_forall. intros x Hx. apply in_map_iff in Hx.
+    destruct Hx as [y [<- _]]. apply H256_len. }
+  assert (Hle : length (leaves H256 B data) <= 2 ^ Nat.log2_up (length (leaves H256 B data))).
+  { destruct (length (leaves H256 B data)) as [|n]; [cbn; lia|].
+    apply Nat.log2_log2_up_spec. lia. }
+  destruct (padded_root_binds _ _ _ Ll Hle (F data) (F data') He) as [E|C]; [|right; exact C].
+  unfold leaves in E. destruct (map_hash_binds _ _ E) as [Ec|C]; [left|right; exact C].
+  rewrite <- (concat_chunks B data HB), <- (concat_chunks B data' HB), Ec. reflexivity.
+Qed.
+
 End MerkleCollision.
 
 (* non-vacuity of `collision` as a notion: a constant "hash" has one, and then the theorem's
@@ -117,3 +149,4 @@ Proof. exists [], [Ascii.zero]. split; [discriminate|reflexivity]. Qed.
 Print Assumptions tree_root_binds.
 Print Assumptions merkle_root_binds.
 Print Assumptions padded_root_binds.
+Print Assumptions bep52_root_binds.
